@@ -13,6 +13,7 @@ import I18n.Driver.FmtCheck
 import I18n.Driver.Hdr
 import I18n.Driver.Po
 import I18n.Driver.Deb
+import I18n.Driver.PyBrace
 /- Line-protocol driver: `<model> <op> <args…>` per line on stdin, one canonical line per op on stdout. -/
 open I18n.Driver
 
@@ -33,6 +34,8 @@ def step (line : String) : String :=
   | "hdr" :: op :: args => Hdr.handle op args
   | "po" :: op :: args => Po.handle op args
   | "deb" :: op :: args => Deb.handle op args
+  | "pybrace" :: op :: args => PyBrace.handle op args
+  | "perlbrace" :: op :: args => PyBrace.handlePerl op args
   | _ => "bad-op"
 
 partial def loop (h : IO.FS.Stream) (out : IO.FS.Stream) : IO Unit := do
